@@ -60,6 +60,8 @@ struct Inner {
     samples: Vec<Value>,
     distinct: std::collections::HashSet<u64>,
     notes: Vec<String>,
+    /// when set, every violation is also queued here (child processes stream them to a file)
+    stream: Option<Vec<Violation>>,
     assumptions: Vec<String>,
     machinery_errors: Vec<String>,
     extra: Map<String, Value>,
@@ -76,8 +78,32 @@ impl Report {
         }
     }
 
+    /// Queue violations for streaming (see `take_streamed`).
+    pub fn enable_stream(&self) {
+        self.inner.lock().unwrap().stream = Some(vec![]);
+    }
+
+    pub fn take_streamed(&self) -> Vec<Violation> {
+        let mut g = self.inner.lock().unwrap();
+        match g.stream.as_mut() {
+            Some(v) => std::mem::take(v),
+            None => vec![],
+        }
+    }
+
+    pub fn counters(&self) -> BTreeMap<String, u64> {
+        self.inner.lock().unwrap().counters.clone()
+    }
+
+    pub fn n_distinct(&self) -> usize {
+        self.inner.lock().unwrap().distinct.len()
+    }
+
     pub fn violation(&self, v: Violation) {
         let mut g = self.inner.lock().unwrap();
+        if let Some(s) = g.stream.as_mut() {
+            s.push(v.clone());
+        }
         let key = (
             v.kind.clone(),
             v.site.clone(),
